@@ -270,7 +270,13 @@ class Facts:
             return False
         # (a helper that takes a closure and calls it is inlined like any other: the closure literal is then in sight at
         # the `f(..)` call, where flatten.py splices its body and the lock-order analysis finds it among the call's closures)
-        helpers = {strip_generics(b["path"]): b for b in raws if is_new(b)}
+        # ... unless it calls that closure while it holds a lock of its own: the lock-order analysis pairs the helper's
+        # locks with what the caller's closure does at the call site (`em.clear_with(|| shards..)`), through any nesting
+        def takes_lock(b):
+            fam = [b] + [c for c in raws if c.get("root") == b["path"] and c is not b]
+            return any(t_ and t_["k"] == "call" and re.search(r"(Mutex|RwLock)(::<[^>]*>|<[^>]*>)?::(lock|read|write|upgradable_read|try_lock|try_read|try_write)", t_.get("callee", ""))
+                       for x in fam for bb in x["blocks"] for t_ in [bb["term"]])
+        helpers = {strip_generics(b["path"]): b for b in raws if is_new(b) and not (calls_fn_value(b) and takes_lock(b))}
         # thin wrappers of the reference tree that a refactoring may as well write out at the call
         # site: the rules are written against the inlined form, whether or not the wrapper exists
         for b in raws:
